@@ -360,6 +360,12 @@ def dispatch (op : String) (args : List String) : String :=
       "ok " ++ showTens ⟨[3, 3], ((List.range 3).flatMap fun i => (List.range 3).map fun j =>
         crM cr (f a) (f b) (f c) (f d) i j + crM cr (f a) (f b) (f c) (f d) j i).toArray⟩
     | _, _, _, _, _ => "bad-op"
+  | "m.bisectordirs", [a, b] => match parseQ a, parseQ b with
+    | some a, some b =>
+      let r := bisectorR a b
+      let s := bisectorS a b
+      "ok " ++ showTens ⟨[2, 3], #[r 0, r 1, r 2, s 0, s 1, s 2]⟩
+    | _, _ => "bad-op"
   | "m.planefoot", [e, p] => match parseVec e, parseVec p with
     | some e, some p =>
       let r : Nat → Q := planeFoot (fun k => e.getD k 0) (fun k => p.getD k 0)
